@@ -47,6 +47,8 @@ type Solver struct {
 	log     io.Writer // optional transcript
 	dead    bool
 	kind    string // "z3" or "cvc5"
+	buf     strings.Builder // commands not yet sent (flushed on the first query)
+	Flushes int
 }
 
 // NewSolver starts a solver. kind is "z3", "z3-new" or "cvc5".
@@ -93,7 +95,18 @@ func (s *Solver) Close() {
 	}
 }
 
+// send buffers a command; nothing reaches the solver process until flush.
 func (s *Solver) send(str string) {
+	s.buf.WriteString(str)
+}
+
+func (s *Solver) flush() {
+	if s.buf.Len() == 0 {
+		return
+	}
+	str := s.buf.String()
+	s.buf.Reset()
+	s.Flushes++
 	if s.log != nil {
 		io.WriteString(s.log, str)
 	}
@@ -105,6 +118,7 @@ func (s *Solver) send(str string) {
 // Reset clears all assertions and definitions.
 func (s *Solver) Reset() {
 	s.defined = map[int]bool{}
+	s.buf.Reset() // commands of an abandoned path that never queried
 	if s.kind == "cvc5" {
 		s.send("(reset-assertions)\n")
 		return
@@ -212,6 +226,7 @@ func (s *Solver) Check(assume *Term, negate bool) Result {
 			s.send("(check-sat-assuming (" + lit + "))\n")
 		}
 	}
+	s.flush()
 	sawErr := false
 	for {
 		r, err := s.readSexpr()
@@ -286,6 +301,7 @@ func (s *Solver) Values(ts []*Term) ([]uint64, error) {
 	}
 	sb.WriteString("))\n")
 	s.send(sb.String())
+	s.flush()
 	r, err := s.readSexpr()
 	if err != nil {
 		return nil, err
